@@ -6,7 +6,7 @@
 use crate::api::cur;
 use crate::common::*;
 use crate::gen;
-use crate::layout::{Header, Layout};
+use crate::layout::{Header, Layout, HEADER_LEN};
 use crate::rng::{digest_bytes, run_seed, Digest, Rng};
 use crate::sched::{Baton, Participant, Policy};
 use serde_json::{json, Value};
@@ -101,11 +101,57 @@ impl Write for YieldSink<'_> {
     }
 }
 
+/// A job that is interrupted in the middle of a write: the sink accepts `left` bytes in chunks of at
+/// most `cap` and then either reports a non-retryable error (contract-obeying sink) or panics (the job
+/// crashes; the caller catches the unwind and the worker thread / process lives on, as in any pool
+/// that survives a panicking job). What was delivered is irrelevant here; the oracle looks at the
+/// NEXT complete write on the same thread.
+struct CrashSink {
+    left: usize,
+    cap: usize,
+    panic: bool,
+    calls: u64,
+}
+
+impl Write for CrashSink {
+    fn write(&mut self, b: &[u8]) -> std::io::Result<usize> {
+        self.calls += 1;
+        if b.is_empty() {
+            return Ok(0);
+        }
+        if self.left == 0 {
+            if self.panic {
+                panic!("pgsim: simulated crash of the writing job inside Write::write");
+            }
+            return Err(std::io::Error::new(std::io::ErrorKind::Other, "pgsim: simulated non-retryable sink failure"));
+        }
+        let n = b.len().min(self.cap).min(self.left);
+        self.left -= n;
+        Ok(n)
+    }
+    fn flush(&mut self) -> std::io::Result<()> {
+        Ok(())
+    }
+}
+
 fn implied_len(out: &[u8]) -> i128 {
     match Header::read(out) {
         Some(h) => Layout::of(&h).total_len() as i128,
         None => -1,
     }
+}
+
+/// End offsets of the header, class table, both member tables and the string section, from the
+/// output's own header (crash points are biased towards them).
+fn section_bounds(out: &[u8]) -> Vec<usize> {
+    let mut v = vec![0usize, HEADER_LEN.min(out.len())];
+    if let Some(h) = Header::read(out) {
+        let l = Layout::of(&h);
+        for x in [l.classes_end, l.members_start, l.members_end, l.by_params_start, l.by_params_end, l.strings_start, l.total_len()] {
+            v.push((x as usize).min(out.len()));
+        }
+    }
+    v
 }
 
 fn write_once(mapping: &[u8]) -> Result<Vec<u8>, String> {
@@ -237,7 +283,8 @@ pub fn child_main(args: &[String]) -> i32 {
             }
             Err(p) => println!("W {} {} PANIC 0 0 {}", i, phase, panic_class(p).replace(' ', "_")),
         };
-        emit("w1", &write_once(m));
+        let first = write_once(m);
+        emit("w1", &first);
         perturb_heap(&mut rng);
         emit("w2", &write_once(m));
         // the same bytes at an address that is NOT 8- or 16-byte aligned (a sub-slice, a file mapped at
@@ -248,6 +295,39 @@ pub fn child_main(args: &[String]) -> i32 {
             shifted.resize(off, 0);
             shifted.extend_from_slice(m);
             emit(&format!("o{}", off), &write_once(&shifted[off..]));
+        }
+        // Interrupted writes: a write of this mapping is cut short after a seeded number of bytes, once by
+        // a sink error and once by a panic inside the sink that the caller catches (the thread and the
+        // process survive, as a worker pool does). The NEXT complete write on this thread (x1 / p1, and
+        // the first write of whichever mapping this process serialises next) must be the canonical bytes:
+        // nothing an abandoned write leaves behind (thread-local or process-wide staging, a poisoned
+        // lock) may become an input of a later one.
+        if m.len() < 2_000_000 {
+            let total = first.as_ref().map(|o| o.len()).unwrap_or(0);
+            for (kind, panics) in [("x", false), ("p", true)] {
+                // crash points are biased towards the section boundaries read from the reference header
+                let at = if total == 0 {
+                    0
+                } else if rng.chance(1, 3) {
+                    let b = section_bounds(first.as_ref().unwrap());
+                    (*rng.pick(&b) + rng.usize_below(3)).saturating_sub(1).min(total)
+                } else {
+                    rng.usize_below(total + 1)
+                };
+                let cap = *rng.pick(&[1usize << 30, 1 << 30, 4096, 64, 7]);
+                let mut sink = CrashSink { left: at, cap, panic: panics, calls: 0 };
+                let r = guarded(|| {
+                    let mm = cur::ProguardMapping::new(m);
+                    cur::ProguardCache::write(&mm, &mut sink)
+                });
+                let outcome = match &r {
+                    Ok(Ok(())) => "completed",
+                    Ok(Err(_)) => "error-reported",
+                    Err(_) => "unwound",
+                };
+                println!("F {} kind={} at={} of={} cap={} calls={} outcome={}", i, kind, at, total, cap, sink.calls, outcome);
+                emit(&format!("{}1", kind), &write_once(m));
+            }
         }
         // T threads write the same mapping concurrently under the seeded baton
         if m.len() < 100_000 {
@@ -367,6 +447,8 @@ struct ChildOut {
     writes: BTreeMap<(usize, String), (String, i128, i128)>,
     dumps: BTreeMap<(usize, String), String>,
     schedules: Vec<String>,
+    /// interrupted-write records: "F idx kind=x|p at=.. of=.. cap=.. calls=.. outcome=.."
+    faults: Vec<String>,
     done: bool,
     raw_digest: u64,
 }
@@ -422,6 +504,7 @@ fn spawn_child(cfg: &ChildCfg) -> Result<ChildOut, String> {
                 co.dumps.insert((idx, phase), it.next().unwrap_or("").to_string());
             }
             Some("S") => co.schedules.push(line.to_string()),
+            Some("F") => co.faults.push(line.to_string()),
             Some("DONE") => co.done = true,
             _ => {}
         }
@@ -464,6 +547,12 @@ fn compare(children: &[(ChildCfg, ChildOut)], st: &mut Stats) -> Vec<(String, St
                 }
                 if phase.starts_with('o') {
                     st.inc("outputs_from_misaligned_mapping_buffer");
+                }
+                if phase.starts_with('x') {
+                    st.inc("outputs_after_write_cut_short_by_sink_error");
+                }
+                if phase.starts_with('p') {
+                    st.inc("outputs_after_write_cut_short_by_caught_panic");
                 }
                 if flagged {
                     continue;
@@ -604,7 +693,7 @@ pub fn main(env: &Env) -> i32 {
         return 2;
     }
     let mut rep = Report::new("C14", "exploration", env);
-    rep.expected_probes = vec!["outputs_from_concurrent_threads", "thread_schedules", "distinct_probe_set_iteration_orders", "distinct_heap_probe_addresses", "outputs_from_address_reuse_phase", "outputs_from_misaligned_mapping_buffer", "distinct_cpu_counts_seen_by_processes"];
+    rep.expected_probes = vec!["outputs_from_concurrent_threads", "thread_schedules", "distinct_probe_set_iteration_orders", "distinct_heap_probe_addresses", "outputs_from_address_reuse_phase", "outputs_from_misaligned_mapping_buffer", "distinct_cpu_counts_seen_by_processes", "fault.sink_error_mid_write", "fault.job_panic_inside_sink_write", "outputs_after_write_cut_short_by_sink_error", "outputs_after_write_cut_short_by_caught_panic"];
     rep.real.push("separately started OS processes (fork/exec of this binary), real std threads inside them".into());
     rep.stubs = vec![
         "process entropy: LD_PRELOAD getrandom()/getentropy() shim answering from a PRNG seeded by VERIF_HASH_SEED (decides every RandomState key in the process)".into(),
@@ -612,6 +701,7 @@ pub fn main(env: &Env) -> i32 {
         "CPU count: sched_setaffinity to the first k CPUs, k drawn from the seed out of {1,2,3,4,8,16} (what available_parallelism() reports)".into(),
         "thread scheduler inside each process: seeded baton, every sink write() is a scheduling point".into(),
         "write history: the order in which a process serialises the batch is drawn from its seed".into(),
+        "sink of the interrupted writes: accepts a seeded number of bytes (biased to section boundaries) in seeded chunks, then returns a non-retryable error or panics; the panic is caught by the harness and the thread keeps working".into(),
     ];
     rep.assumptions = vec![
         "equality of all outputs for one mapping is demanded whatever the seed; the first process's first write is the reference".into(),
@@ -622,7 +712,7 @@ pub fn main(env: &Env) -> i32 {
     let (n_batches, n, n_children, max_threads) = if thorough { (env.scaled(12), 1500u64, 64u64, 8u64) } else { (1, env.scaled(220), 12u64, 6u64) };
     rep.rule = format!(
         "{} batch(es); per batch {} seeded-generated mappings (0..12 classes x 0..12 members) + 3 hand-written tie/duplicate/orphan shapes + one big generated mapping (> 8192 records) + one huge one (> 65 536 classes and members) + one class with > 65 536 distinct methods + all corpus files (incl. the 0.7 MB and 2.3 MB ones) + an equal-length sibling for every 6th mapping are serialised by {} separately started processes, each with its own hash seed, heap layout, CPU count (affinity mask) and processing order; \
-         inside a process every mapping is written twice (heap perturbed in between), once more from a misaligned copy (address % 8 in 1..7), and then by 2..{} threads concurrently under the seeded baton (every sink call is a scheduling point, chunk cap drawn from {{inf,64,7}}); in the first thorough batch a 150 000-class mapping replaces the 66 000-class one and, in 8 of the processes, is additionally converted by 16 free-running threads released from a barrier (the only phase whose schedule is not decided by the simulator); finally equal-length siblings are copied into one reused buffer and written back to back in seed-dependent order (address reuse). \
+         inside a process every mapping is written twice (heap perturbed in between), once more from a misaligned copy (address % 8 in 1..7), then two writes of it are cut short after a seeded number of bytes (one by a sink error, one by a panic inside the sink that is caught; each is followed by a complete write on the same thread, which joins the comparison), and then by 2..{} threads concurrently under the seeded baton (every sink call is a scheduling point, chunk cap drawn from {{inf,64,7}}); in the first thorough batch a 150 000-class mapping replaces the 66 000-class one and, in 8 of the processes, is additionally converted by 16 free-running threads released from a barrier (the only phase whose schedule is not decided by the simulator); finally equal-length siblings are copied into one reused buffer and written back to back in seed-dependent order (address reuse). \
          Oracle: all outputs for one mapping are byte-identical (compared by 64-bit digest + length; full bytes re-fetched on mismatch) and as long as their own header implies. \
          distinct_nontrivial = distinct (process, mapping, phase) outputs compared beyond the reference write.",
         n_batches, n, n_children, max_threads
@@ -650,6 +740,17 @@ pub fn main(env: &Env) -> i32 {
             cpu_counts.insert(o.cpus.clone());
             aslr_off_all &= o.aslr_off;
             st.add("thread_schedules", o.schedules.len() as u64);
+            for f in &o.faults {
+                let kind = if f.contains(" kind=p ") { "job_panic_inside_sink_write" } else { "sink_error_mid_write" };
+                if f.ends_with("outcome=completed") {
+                    st.inc(&format!("fault.{}.not_reached", kind));
+                } else {
+                    st.inc(&format!("fault.{}", kind));
+                    if f.ends_with("outcome=unwound") != (kind == "job_panic_inside_sink_write") {
+                        st.inc("control.interrupted_write_unexpected_outcome");
+                    }
+                }
+            }
             st.add("baton_stalls_resolved", o.schedules.iter().filter(|l| !l.ends_with("stalls=0")).count() as u64);
             st.digest_sum = st.digest_sum.wrapping_add(o.raw_digest);
             st.runs += 1;
